@@ -1,0 +1,390 @@
+//go:build verif
+
+// Contracts for the deductive verifier in /verif (govc). Only compiled with -tags verif.
+
+package quota
+
+import "github.com/snapcore/snapd/gadget/quantity"
+
+// The specification has its own maximum functions: it must not move when the code's max/maxq do.
+
+//@ func specMax
+//@   pure
+
+func specMax(a, b int) int {
+	if a >= b {
+		return a
+	}
+	return b
+}
+
+//@ func specMaxq
+//@   pure
+
+func specMaxq(a, b quantity.Size) quantity.Size {
+	if a >= b {
+		return a
+	}
+	return b
+}
+
+//@ func specUpThr
+//@   pure
+
+// first group on the parent chain starting at p (p included) that has a thread limit recorded in q
+func specUpThr(q map[string]*groupQuotaAllocations, p *Group) *Group {
+	if p == nil {
+		return nil
+	}
+	l := q[p.Name]
+	if l != nil && l.ThreadsLimit != 0 {
+		return p
+	}
+	return specUpThr(q, p.parentGroup)
+}
+
+// what grp currently contributes to the thread reservation of its ancestors, as the validator computes it
+//@ define thrC0(q map[string]*groupQuotaAllocations, grp *Group) = ite(q[grp.Name] == nil, grp.ThreadLimit, specMax(grp.ThreadLimit, q[grp.Name].ThreadsReservedByChildren))
+
+//@ func (*Group).validateThreadResourceFit
+//@   props C36
+//@   arith checked
+//@   requires grp != nil && grp.ThreadLimit >= 0
+//@   requires allQuotas[grp.Name] != nil ==> allQuotas[grp.Name].ThreadsReservedByChildren >= 0
+//@   requires specUpThr(allQuotas, grp.parentGroup) != nil ==> allQuotas[specUpThr(allQuotas, grp.parentGroup).Name].ThreadsLimit >= 0 && allQuotas[specUpThr(allQuotas, grp.parentGroup).Name].ThreadsReservedByChildren >= thrC0(allQuotas, grp)
+//@   ensures [children] result == nil && allQuotas[grp.Name] != nil ==> allQuotas[grp.Name].ThreadsReservedByChildren <= threadLimit
+//@   ensures [parent] result == nil ==> (allQuotas[grp.Name] != nil && threadLimit < grp.ThreadLimit) || specUpThr(allQuotas, grp.parentGroup) == nil || threadLimit + (allQuotas[specUpThr(allQuotas, grp.parentGroup).Name].ThreadsReservedByChildren - thrC0(allQuotas, grp)) <= allQuotas[specUpThr(allQuotas, grp.parentGroup).Name].ThreadsLimit
+//@   ensures [exact] (result == nil) == ((allQuotas[grp.Name] == nil || allQuotas[grp.Name].ThreadsReservedByChildren <= threadLimit) && ((allQuotas[grp.Name] != nil && threadLimit < grp.ThreadLimit) || specUpThr(allQuotas, grp.parentGroup) == nil || threadLimit + (allQuotas[specUpThr(allQuotas, grp.parentGroup).Name].ThreadsReservedByChildren - thrC0(allQuotas, grp)) <= allQuotas[specUpThr(allQuotas, grp.parentGroup).Name].ThreadsLimit))
+//@   loop 0: invariant specUpThr(allQuotas, parent) == specUpThr(allQuotas, grp.parentGroup)
+//@   loop 0: invariant allQuotas[grp.Name] == nil || (allQuotas[grp.Name].ThreadsReservedByChildren <= threadLimit && threadLimit >= grp.ThreadLimit)
+//@   loop 0: invariant threadsReserved == thrC0(allQuotas, grp)
+
+// ---- memory -------------------------------------------------------------------------------
+
+//@ func specUpMem
+//@   pure
+
+// first group on the parent chain starting at p (p included) that has a memory limit recorded in q
+func specUpMem(q map[string]*groupQuotaAllocations, p *Group) *Group {
+	if p == nil {
+		return nil
+	}
+	l := q[p.Name]
+	if l != nil && l.MemoryLimit != 0 {
+		return p
+	}
+	return specUpMem(q, p.parentGroup)
+}
+
+//@ define memC0(q map[string]*groupQuotaAllocations, grp *Group) = ite(q[grp.Name] == nil, grp.MemoryLimit, specMaxq(grp.MemoryLimit, q[grp.Name].MemoryReservedByChildren))
+
+//@ func (*Group).validateMemoryResourceFit
+//@   props C36
+//@   arith checked
+//@   requires grp != nil
+//@   requires specUpMem(allQuotas, grp.parentGroup) != nil ==> allQuotas[specUpMem(allQuotas, grp.parentGroup).Name].MemoryReservedByChildren >= memC0(allQuotas, grp) && allQuotas[specUpMem(allQuotas, grp.parentGroup).Name].MemoryReservedByChildren - memC0(allQuotas, grp) <= allQuotas[specUpMem(allQuotas, grp.parentGroup).Name].MemoryLimit
+//@   ensures [children] result == nil && allQuotas[grp.Name] != nil ==> allQuotas[grp.Name].MemoryReservedByChildren <= memoryLimit
+//@   ensures [parent] result == nil ==> (allQuotas[grp.Name] != nil && memoryLimit < grp.MemoryLimit) || specUpMem(allQuotas, grp.parentGroup) == nil || memoryLimit + (allQuotas[specUpMem(allQuotas, grp.parentGroup).Name].MemoryReservedByChildren - memC0(allQuotas, grp)) <= allQuotas[specUpMem(allQuotas, grp.parentGroup).Name].MemoryLimit
+//@   ensures [exact] (result == nil) == ((allQuotas[grp.Name] == nil || allQuotas[grp.Name].MemoryReservedByChildren <= memoryLimit) && ((allQuotas[grp.Name] != nil && memoryLimit < grp.MemoryLimit) || specUpMem(allQuotas, grp.parentGroup) == nil || memoryLimit + (allQuotas[specUpMem(allQuotas, grp.parentGroup).Name].MemoryReservedByChildren - memC0(allQuotas, grp)) <= allQuotas[specUpMem(allQuotas, grp.parentGroup).Name].MemoryLimit))
+//@   loop 0: invariant specUpMem(allQuotas, parent) == specUpMem(allQuotas, grp.parentGroup)
+//@   loop 0: invariant allQuotas[grp.Name] == nil || (allQuotas[grp.Name].MemoryReservedByChildren <= memoryLimit && memoryLimit >= grp.MemoryLimit)
+//@   loop 0: invariant memoryReserved == memC0(allQuotas, grp)
+
+// ---- CPU ----------------------------------------------------------------------------------
+
+// runtime.NumCPU() writes nothing (for the effect analysis of the callers of runtimeNumCPU; its VALUE cannot
+// be specified from here: calls in verified bodies are resolved to runtime.NumCPU itself, which has no model)
+//@ func var:runtimeNumCPU
+//@   trusted
+//@   assigns nothing
+
+//@ func specUpSet
+//@   pure
+
+// CPU set in effect for p: its own if not empty, else the one of the nearest ancestor that has one
+func specUpSet(p *Group) []int {
+	if p == nil {
+		return nil
+	}
+	if p.CPULimit != nil && len(p.CPULimit.CPUSet) != 0 {
+		return p.CPULimit.CPUSet
+	}
+	return specUpSet(p.parentGroup)
+}
+
+// (assigns nothing: the only allocation is the empty literal []int{}, which has no element to write)
+//@ func (*Group).GetLocalCPUSetQuota
+//@   props C36
+//@   assigns nothing
+//@   requires grp != nil
+//@   ensures (grp.CPULimit == nil || len(grp.CPULimit.CPUSet) == 0) ==> len(result) == 0
+//@   ensures !(grp.CPULimit == nil || len(grp.CPULimit.CPUSet) == 0) ==> result == grp.CPULimit.CPUSet
+
+//@ func (*Group).GetCPUSetQuota
+//@   props C36
+//@   requires grp != nil
+//@   ensures result == specUpSet(grp)
+//@   loop 0: invariant specUpSet(parent) == specUpSet(grp.parentGroup)
+//@   loop 0: invariant grp.CPULimit == nil || len(grp.CPULimit.CPUSet) == 0
+
+//@ func specUpCPU
+//@   pure
+
+// first group on the parent chain starting at p (p included) for which q records a CPU limit or a CPU set
+func specUpCPU(q map[string]*groupQuotaAllocations, p *Group) *Group {
+	if p == nil {
+		return nil
+	}
+	l := q[p.Name]
+	if l != nil && (l.CPULimit != 0 || len(l.CPUSetLimit) > 0) {
+		return p
+	}
+	return specUpCPU(q, p.parentGroup)
+}
+
+// v is the CPU reservation a request (count, pct) made for grp amounts to. When neither a count nor a CPU
+// set in effect is there, the code multiplies by runtime.NumCPU(), about which nothing can be said here
+// (engine: the package variable runtimeNumCPU is resolved to runtime.NumCPU, which has no model).
+//@ define cpuReqIs(grp *Group, count int, pct int, v int) = (count != 0 ==> v == count * pct) && (count == 0 && len(specUpSet(grp)) != 0 ==> v == len(specUpSet(grp)) * pct)
+
+//@ define cpuC0(q map[string]*groupQuotaAllocations, grp *Group) = ite(q[grp.Name] == nil, 0, specMax(q[grp.Name].CPULimit, q[grp.Name].CPUReservedByChildren))
+
+//@ func (*Group).validateCPUResourceFit
+//@   props C36
+//@   arith math
+//@   requires grp != nil && resourceLimits.CPU != nil
+//@   ensures [req] cpuReqIs(grp, resourceLimits.CPU.Count, resourceLimits.CPU.Percentage, final(cpuRequested))
+//@   ensures [children] result == nil && allQuotas[grp.Name] != nil ==> allQuotas[grp.Name].CPUReservedByChildren <= final(cpuRequested)
+//@   ensures [parent] result == nil ==> (allQuotas[grp.Name] != nil && final(cpuRequested) < allQuotas[grp.Name].CPULimit) || specUpCPU(allQuotas, grp.parentGroup) == nil || (allQuotas[specUpCPU(allQuotas, grp.parentGroup).Name].CPULimit != 0 && final(cpuRequested) + (allQuotas[specUpCPU(allQuotas, grp.parentGroup).Name].CPUReservedByChildren - cpuC0(allQuotas, grp)) <= allQuotas[specUpCPU(allQuotas, grp.parentGroup).Name].CPULimit) || (allQuotas[specUpCPU(allQuotas, grp.parentGroup).Name].CPULimit == 0 && final(cpuRequested) <= len(allQuotas[specUpCPU(allQuotas, grp.parentGroup).Name].CPUSetLimit) * 100)
+//@   ensures [exact] (result == nil) == ((allQuotas[grp.Name] == nil || allQuotas[grp.Name].CPUReservedByChildren <= final(cpuRequested)) && ((allQuotas[grp.Name] != nil && final(cpuRequested) < allQuotas[grp.Name].CPULimit) || specUpCPU(allQuotas, grp.parentGroup) == nil || (allQuotas[specUpCPU(allQuotas, grp.parentGroup).Name].CPULimit != 0 && final(cpuRequested) + (allQuotas[specUpCPU(allQuotas, grp.parentGroup).Name].CPUReservedByChildren - cpuC0(allQuotas, grp)) <= allQuotas[specUpCPU(allQuotas, grp.parentGroup).Name].CPULimit) || (allQuotas[specUpCPU(allQuotas, grp.parentGroup).Name].CPULimit == 0 && final(cpuRequested) <= len(allQuotas[specUpCPU(allQuotas, grp.parentGroup).Name].CPUSetLimit) * 100)))
+//@   loop 0: invariant specUpCPU(allQuotas, parent) == specUpCPU(allQuotas, grp.parentGroup)
+//@   loop 0: invariant allQuotas[grp.Name] == nil || (allQuotas[grp.Name].CPUReservedByChildren <= cpuRequested && cpuRequested >= allQuotas[grp.Name].CPULimit)
+//@   loop 0: invariant existingCPUAllocation == cpuC0(allQuotas, grp)
+
+// ---- CPU sets -----------------------------------------------------------------------------
+
+//@ func contains
+//@   props C36
+//@   ensures result == (exists i int :: 0 <= i && i < len(s) && s[i] == e)
+//@   loop 0: invariant -1 <= idx0 && idx0 < len(s)
+//@   loop 0: invariant forall i int :: 0 <= i && i <= idx0 ==> s[i] != e
+
+// every element of b occurs in a (the first conjunct is implied by the second; it spares the solver an instantiation)
+//@ define supersetOf(a []int, b []int) = (len(b) == 0 || len(a) > 0) && forall j int :: 0 <= j && j < len(b) ==> exists i int :: 0 <= i && i < len(a) && a[i] == b[j]
+
+//@ func (*Group).validateCPUsAllowedResourceFit$1
+//@   props C36
+//@   ensures result == supersetOf(a, b)
+//@   loop 0: invariant -1 <= idx0 && idx0 < len(b)
+//@   loop 0: invariant idx0 >= 0 ==> len(a) > 0
+//@   loop 0: invariant forall j int :: 0 <= j && j <= idx0 ==> exists i int :: 0 <= i && i < len(a) && a[i] == b[j]
+
+// The func literal is stored in the local isSuperset and called through it: for the engine these are
+// calls of an unknown function value. The three call sites get the contract proved above for the literal
+// (assumption: the local holds that literal; it is assigned once, at its declaration).
+//@ func dyncall:(*Group).validateCPUsAllowedResourceFit#0
+//@   trusted
+//@   assigns nothing
+//@   ensures result == supersetOf(arg0, arg1)
+
+//@ func dyncall:(*Group).validateCPUsAllowedResourceFit#1
+//@   trusted
+//@   assigns nothing
+//@   ensures result == supersetOf(arg0, arg1)
+
+//@ func dyncall:(*Group).validateCPUsAllowedResourceFit#2
+//@   trusted
+//@   assigns nothing
+//@   ensures result == supersetOf(arg0, arg1)
+
+//@ func specUpSetQ
+//@   pure
+
+// first group on the parent chain starting at p (p included) for which q records a CPU set
+func specUpSetQ(q map[string]*groupQuotaAllocations, p *Group) *Group {
+	if p == nil {
+		return nil
+	}
+	l := q[p.Name]
+	if l != nil && len(l.CPUSetLimit) != 0 {
+		return p
+	}
+	return specUpSetQ(q, p.parentGroup)
+}
+
+//@ func (*Group).validateCPUsAllowedResourceFit
+//@   props C36
+//@   assigns nothing
+//@   requires grp != nil
+//@   ensures [children] result == nil ==> old(allQuotas[grp.Name] != nil ==> supersetOf(cpusAllowed, allQuotas[grp.Name].CPUSetReservedByChildren))
+//@   ensures [exact] (result == nil) == old((allQuotas[grp.Name] == nil || supersetOf(cpusAllowed, allQuotas[grp.Name].CPUSetReservedByChildren)) && ((allQuotas[grp.Name] != nil && ite(grp.CPULimit == nil || len(grp.CPULimit.CPUSet) == 0, len(cpusAllowed) == 0, supersetOf(grp.CPULimit.CPUSet, cpusAllowed))) || specUpSetQ(allQuotas, grp.parentGroup) == nil || supersetOf(allQuotas[specUpSetQ(allQuotas, grp.parentGroup).Name].CPUSetLimit, cpusAllowed)))
+//@   loop 0: invariant specUpSetQ(allQuotas, parent) == specUpSetQ(allQuotas, grp.parentGroup)
+//@   loop 0: invariant old(allQuotas[grp.Name] == nil || (supersetOf(cpusAllowed, allQuotas[grp.Name].CPUSetReservedByChildren) && !ite(grp.CPULimit == nil || len(grp.CPULimit.CPUSet) == 0, len(cpusAllowed) == 0, supersetOf(grp.CPULimit.CPUSet, cpusAllowed))))
+
+// ---- the allocations recorded by getQuotaAllocations ------------------------------------------
+
+// Level of a group in its tree, counted from below: every sub-group is exactly one level under its
+// parent and no level is negative. Any finite acyclic tree has such a labelling; it is what makes the
+// recursive sums below well-founded (d is the level of the groups in subs).
+//@ ghost gLevel(ref) int
+
+// the accumulation never wraps around: it is the mathematical sum whenever that is representable and
+// the nearest representable value otherwise (finding F4 was a wrapped sum)
+//@ func addSaturatedq
+//@   props C36
+//@   pure
+//@   arith checked
+//@   ensures (a + b <= 18446744073709551615 ==> result == a + b) && (a + b > 18446744073709551615 ==> result == 18446744073709551615)
+
+//@ func addSaturated
+//@   props C36
+//@   pure
+//@   arith checked
+//@   ensures (-9223372036854775808 <= a + b && a + b <= 9223372036854775807 ==> result == a + b) && (a + b > 9223372036854775807 ==> result == 9223372036854775807) && (a + b < -9223372036854775808 ==> result == -9223372036854775808)
+
+//@ func specSumMem
+//@   pure
+
+// memory reserved by subs[0..i]: each sub-group counts with the larger of its own limit and of what its
+// own sub-groups reserve (mathematical integers)
+func specSumMem(subs []*Group, i int, d int) quantity.Size {
+	if i < 0 || i >= len(subs) || d < 0 {
+		return 0
+	}
+	c := subs[i]
+	return addSaturatedq(specSumMem(subs, i-1, d), specMaxq(c.MemoryLimit, specSumMem(c.subGroups, len(c.subGroups)-1, d-1)))
+}
+
+//@ func specSumThr
+//@   pure
+
+func specSumThr(subs []*Group, i int, d int) int {
+	if i < 0 || i >= len(subs) || d < 0 {
+		return 0
+	}
+	c := subs[i]
+	return addSaturated(specSumThr(subs, i-1, d), specMax(c.ThreadLimit, specSumThr(c.subGroups, len(c.subGroups)-1, d-1)))
+}
+
+// what can be said of the CPU reservation v of g without knowing runtime.NumCPU()
+//@ define cpuAllocIs(g *Group, v int) = ((g.CPULimit == nil || g.CPULimit.Percentage == 0) ==> v == 0) && (g.CPULimit != nil && g.CPULimit.Percentage != 0 && g.CPULimit.Count != 0 ==> v == g.CPULimit.Count * g.CPULimit.Percentage)
+
+//@ func (*Group).GetLocalCPUQuota
+//@   props C36
+//@   requires grp != nil
+//@   ensures (grp.CPULimit == nil || grp.CPULimit.Percentage == 0) ==> result0 == 0 && result1 == 0
+//@   ensures grp.CPULimit != nil && grp.CPULimit.Percentage != 0 ==> result1 == grp.CPULimit.Percentage && (grp.CPULimit.Count != 0 ==> result0 == grp.CPULimit.Count) && (grp.CPULimit.Count == 0 && len(specUpSet(grp)) != 0 ==> result0 <= len(specUpSet(grp)))
+
+//@ func (*Group).getCurrentCPUAllocation
+//@   props C36
+//@   arith math
+//@   requires grp != nil
+//@   ensures cpuAllocIs(grp, result)
+
+// the func literal sliceUniqueAndSort is called through a local: see the remark on isSuperset. Only its
+// frame is used (it writes nothing but the map and slices it allocates).
+//@ func dyncall:(*Group).getQuotaAllocations#0
+//@   trusted
+//@   assigns nothing
+
+// Frame (assumed, because the call through the local makes the computed effect set "everything"): the
+// function writes the records it allocates, the map it is given and the int slices it builds. That
+// records which existed before keep their contents is proved ([kept]).
+//@ func (*Group).getQuotaAllocations
+//@   props C36
+//@   arith checked
+//@   assigns groupQuotaAllocations.* Md:Str:Ref Mv:Str:Ref Mc:Str:Ref E:Int
+//@   requires grp != nil && allQuotas != nil && gLevel(grp) >= 0
+//@   requires forall g *Group :: len(g.subGroups) < 9223372036854775807
+//@   requires forall g *Group, i int :: 0 <= i && i < len(g.subGroups) ==> g.subGroups[i] != nil && gLevel(g.subGroups[i]) == gLevel(g) - 1 && gLevel(g.subGroups[i]) >= 0
+//@   ensures [entry] result != nil && allQuotas[grp.Name] == result
+//@   ensures [own] result.MemoryLimit == grp.MemoryLimit && result.ThreadsLimit == grp.ThreadLimit && cpuAllocIs(grp, result.CPULimit)
+//@   ensures [own-set] (hasLocalSet(grp) ==> result.CPUSetLimit == grp.CPULimit.CPUSet) && (!hasLocalSet(grp) ==> len(result.CPUSetLimit) == 0)
+//@   ensures [mem] result.MemoryReservedByChildren == specSumMem(grp.subGroups, len(grp.subGroups)-1, gLevel(grp)-1)
+//@   ensures [thr] result.ThreadsReservedByChildren == specSumThr(grp.subGroups, len(grp.subGroups)-1, gLevel(grp)-1)
+//@   ensures [kept] forall e *groupQuotaAllocations :: old(allocated(e)) ==> e.MemoryLimit == old(e.MemoryLimit) && e.MemoryReservedByChildren == old(e.MemoryReservedByChildren) && e.ThreadsLimit == old(e.ThreadsLimit) && e.ThreadsReservedByChildren == old(e.ThreadsReservedByChildren) && e.CPULimit == old(e.CPULimit) && e.CPUReservedByChildren == old(e.CPUReservedByChildren) && e.CPUSetLimit == old(e.CPUSetLimit) && e.CPUSetReservedByChildren == old(e.CPUSetReservedByChildren)
+//@   loop 0: invariant -1 <= idx0 && idx0 < len(grp.subGroups) && limits != nil
+//@   loop 0: invariant limits.MemoryLimit == grp.MemoryLimit && limits.ThreadsLimit == grp.ThreadLimit && cpuAllocIs(grp, limits.CPULimit)
+//@   loop 0: invariant (hasLocalSet(grp) ==> limits.CPUSetLimit == grp.CPULimit.CPUSet) && (!hasLocalSet(grp) ==> len(limits.CPUSetLimit) == 0)
+//@   loop 0: invariant limits.MemoryReservedByChildren == specSumMem(grp.subGroups, idx0, gLevel(grp)-1)
+//@   loop 0: invariant limits.ThreadsReservedByChildren == specSumThr(grp.subGroups, idx0, gLevel(grp)-1)
+//@   loop 0: invariant forall e *groupQuotaAllocations :: old(allocated(e)) ==> e.MemoryLimit == old(e.MemoryLimit) && e.MemoryReservedByChildren == old(e.MemoryReservedByChildren) && e.ThreadsLimit == old(e.ThreadsLimit) && e.ThreadsReservedByChildren == old(e.ThreadsReservedByChildren) && e.CPULimit == old(e.CPULimit) && e.CPUReservedByChildren == old(e.CPUReservedByChildren) && e.CPUSetLimit == old(e.CPUSetLimit) && e.CPUSetReservedByChildren == old(e.CPUSetReservedByChildren)
+
+// ---- changing the limits ----------------------------------------------------------------------
+
+// count and percentage of g's CPU quota (0 when it has none), and whether g has a CPU set of its own
+//@ define cpuCount(g *Group) = ite(g.CPULimit == nil, 0, g.CPULimit.Count)
+//@ define cpuPct(g *Group) = ite(g.CPULimit == nil, 0, g.CPULimit.Percentage)
+//@ define hasLocalSet(g *Group) = g.CPULimit != nil && len(g.CPULimit.CPUSet) != 0
+
+// (the request's parts exist before the call: true of every Go value, the engine needs to be told)
+//@ func (*Group).UpdateQuotaLimits
+//@   props C36
+//@   requires grp != nil
+//@   requires (resourceLimits.Memory == nil || allocated(resourceLimits.Memory)) && (resourceLimits.CPU == nil || allocated(resourceLimits.CPU)) && (resourceLimits.CPUSet == nil || allocated(resourceLimits.CPUSet)) && (resourceLimits.Threads == nil || allocated(resourceLimits.Threads))
+//@   ensures [refused-unchanged] result != nil ==> forall g *Group :: g.MemoryLimit == old(g.MemoryLimit) && g.ThreadLimit == old(g.ThreadLimit) && g.CPULimit == old(g.CPULimit) && g.JournalLimit == old(g.JournalLimit) && g.subGroups == old(g.subGroups) && g.parentGroup == old(g.parentGroup)
+//@   ensures [refused-unchanged-cpu] result != nil ==> forall c *GroupQuotaCPU :: old(allocated(c)) ==> c.Count == old(c.Count) && c.Percentage == old(c.Percentage) && c.CPUSet == old(c.CPUSet)
+//@   ensures [others-unchanged] forall g *Group :: g != grp ==> g.MemoryLimit == old(g.MemoryLimit) && g.ThreadLimit == old(g.ThreadLimit) && g.CPULimit == old(g.CPULimit) && g.subGroups == old(g.subGroups) && g.parentGroup == old(g.parentGroup)
+//@   ensures [tree-unchanged] grp.subGroups == old(grp.subGroups) && grp.parentGroup == old(grp.parentGroup)
+//@   ensures [mem] result == nil ==> grp.MemoryLimit == old(ite(resourceLimits.Memory != nil, resourceLimits.Memory.Limit, grp.MemoryLimit))
+//@   ensures [thr] result == nil ==> grp.ThreadLimit == old(ite(resourceLimits.Threads != nil, resourceLimits.Threads.Limit, grp.ThreadLimit))
+//@   ensures [cpu] result == nil ==> cpuCount(grp) == old(ite(resourceLimits.CPU != nil, resourceLimits.CPU.Count, cpuCount(grp))) && cpuPct(grp) == old(ite(resourceLimits.CPU != nil, resourceLimits.CPU.Percentage, cpuPct(grp)))
+//@   ensures [set-new] result == nil && resourceLimits.CPUSet != nil ==> grp.CPULimit != nil && grp.CPULimit.CPUSet == old(resourceLimits.CPUSet.CPUs)
+//@   ensures [set-kept] result == nil && resourceLimits.CPUSet == nil ==> hasLocalSet(grp) == old(hasLocalSet(grp)) && (hasLocalSet(grp) ==> grp.CPULimit.CPUSet == old(grp.CPULimit.CPUSet))
+//@   ensures [cpu-validated-new-set] result == nil && resourceLimits.CPUSet != nil && cpuPct(grp) != 0 && cpuCount(grp) == 0 ==> old((len(resourceLimits.CPUSet.CPUs) == 0 && !hasLocalSet(grp)) || len(resourceLimits.CPUSet.CPUs) == len(specUpSet(grp)))
+
+// ---- creating groups --------------------------------------------------------------------------
+
+//@ func (*Group).NewSubGroup
+//@   props C36
+//@   requires grp != nil
+//@   requires (resourceLimits.Memory == nil || allocated(resourceLimits.Memory)) && (resourceLimits.CPU == nil || allocated(resourceLimits.CPU)) && (resourceLimits.CPUSet == nil || allocated(resourceLimits.CPUSet)) && (resourceLimits.Threads == nil || allocated(resourceLimits.Threads))
+//@   ensures [refused-unchanged] result1 != nil ==> result0 == nil && grp.subGroups == old(grp.subGroups) && grp.SubGroups == old(grp.SubGroups)
+//@   ensures [existing-unchanged] forall g *Group :: old(allocated(g)) ==> g.MemoryLimit == old(g.MemoryLimit) && g.ThreadLimit == old(g.ThreadLimit) && g.CPULimit == old(g.CPULimit) && g.parentGroup == old(g.parentGroup) && (g != grp ==> g.subGroups == old(g.subGroups))
+//@   ensures [linked] result1 == nil ==> result0 != nil && result0.parentGroup == grp && len(result0.subGroups) == 0 && len(grp.subGroups) == old(len(grp.subGroups)) + 1 && grp.subGroups[len(grp.subGroups)-1] == result0
+//@   ensures [siblings-kept] result1 == nil ==> forall k int :: 0 <= k && k < old(len(grp.subGroups)) ==> grp.subGroups[k] == old(grp.subGroups[k])
+//@   ensures [limits] result1 == nil ==> result0.MemoryLimit == old(ite(resourceLimits.Memory != nil, resourceLimits.Memory.Limit, 0)) && result0.ThreadLimit == old(ite(resourceLimits.Threads != nil, resourceLimits.Threads.Limit, 0)) && cpuCount(result0) == old(ite(resourceLimits.CPU != nil, resourceLimits.CPU.Count, 0)) && cpuPct(result0) == old(ite(resourceLimits.CPU != nil, resourceLimits.CPU.Percentage, 0))
+
+//@ func NewGroup
+//@   props C36
+//@   requires (resourceLimits.Memory == nil || allocated(resourceLimits.Memory)) && (resourceLimits.CPU == nil || allocated(resourceLimits.CPU)) && (resourceLimits.CPUSet == nil || allocated(resourceLimits.CPUSet)) && (resourceLimits.Threads == nil || allocated(resourceLimits.Threads))
+//@   ensures [refused] result1 != nil ==> result0 == nil
+//@   ensures [existing-unchanged] forall g *Group :: old(allocated(g)) ==> g.MemoryLimit == old(g.MemoryLimit) && g.ThreadLimit == old(g.ThreadLimit) && g.CPULimit == old(g.CPULimit) && g.parentGroup == old(g.parentGroup) && g.subGroups == old(g.subGroups)
+//@   ensures [root] result1 == nil ==> result0 != nil && result0.parentGroup == nil && len(result0.subGroups) == 0
+//@   ensures [limits] result1 == nil ==> result0.MemoryLimit == old(ite(resourceLimits.Memory != nil, resourceLimits.Memory.Limit, 0)) && result0.ThreadLimit == old(ite(resourceLimits.Threads != nil, resourceLimits.Threads.Limit, 0)) && cpuCount(result0) == old(ite(resourceLimits.CPU != nil, resourceLimits.CPU.Count, 0)) && cpuPct(result0) == old(ite(resourceLimits.CPU != nil, resourceLimits.CPU.Percentage, 0))
+
+// ---- composition, for a root group ------------------------------------------------------------
+
+// What validateQuotasFit does for a group without parent, as ghost clients of the contracts above: a new
+// memory (thread) limit that is accepted covers what the sub-groups reserve, in mathematical integers and
+// without reference to the map. (For groups with ancestors the same composition needs the records of all
+// ancestors, which getQuotaAllocations' contract does not provide: see not_decided.)
+
+//@ func lemRootMemoryCoversChildren
+//@   lemma
+//@   props C36
+//@   requires root != nil && root.parentGroup == nil && gLevel(root) >= 0
+//@   requires forall g *Group :: len(g.subGroups) < 9223372036854775807
+//@   requires forall g *Group, i int :: 0 <= i && i < len(g.subGroups) ==> g.subGroups[i] != nil && gLevel(g.subGroups[i]) == gLevel(g) - 1 && gLevel(g.subGroups[i]) >= 0
+//@   ensures result ==> specSumMem(root.subGroups, len(root.subGroups)-1, gLevel(root)-1) <= limit
+
+func lemRootMemoryCoversChildren(root *Group, limit quantity.Size) bool {
+	q := make(map[string]*groupQuotaAllocations)
+	root.getQuotaAllocations(q)
+	return root.validateMemoryResourceFit(q, limit) == nil
+}
+
+//@ func lemRootThreadsCoverChildren
+//@   lemma
+//@   props C36
+//@   requires root != nil && root.parentGroup == nil && gLevel(root) >= 0 && root.ThreadLimit >= 0
+//@   requires specSumThr(root.subGroups, len(root.subGroups)-1, gLevel(root)-1) >= 0
+//@   requires forall g *Group :: len(g.subGroups) < 9223372036854775807
+//@   requires forall g *Group, i int :: 0 <= i && i < len(g.subGroups) ==> g.subGroups[i] != nil && gLevel(g.subGroups[i]) == gLevel(g) - 1 && gLevel(g.subGroups[i]) >= 0
+//@   ensures result ==> specSumThr(root.subGroups, len(root.subGroups)-1, gLevel(root)-1) <= limit
+
+func lemRootThreadsCoverChildren(root *Group, limit int) bool {
+	q := make(map[string]*groupQuotaAllocations)
+	root.getQuotaAllocations(q)
+	return root.validateThreadResourceFit(q, limit) == nil
+}
